@@ -497,9 +497,20 @@ func cliExec(c *Ctx, op string) {
 		out, _ := cmd.Output()
 		goodID = strings.TrimSpace(string(out))
 	}
+	// a second copy of that warehouse inside a directory that will be an unpack target, reachable also through a symlink
+	// that lies outside of it; and that directory reachable through a symlinked parent
+	if goodID != "" {
+		exec.Command("cp", "-a", filepath.Join(base, "wh"), filepath.Join(base, "tgtreal-wh4.tmp")).Run()
+		os.MkdirAll(filepath.Join(base, "tgtreal"), 0755)
+		os.Rename(filepath.Join(base, "tgtreal-wh4.tmp"), filepath.Join(base, "tgtreal", "wh4"))
+		os.Symlink(filepath.Join(base, "tgtreal", "wh4"), filepath.Join(base, "viewlink"))
+		os.Symlink(base, filepath.Join(base, "..", filepath.Base(base)+"-alias"))
+		defer os.Remove(filepath.Join(base, "..", filepath.Base(base)+"-alias"))
+	}
 	var args []string
 	for _, a := range f[1:] {
 		s := unhx(a)
+		s = strings.ReplaceAll(s, "@WALIAS@", base+"-alias")
 		s = strings.ReplaceAll(s, "@W@", base)
 		s = strings.ReplaceAll(s, "@GOODID@", goodID)
 		s = strings.ReplaceAll(s, "@HTTP@", brokenHTTP())
@@ -540,6 +551,12 @@ func cliExec(c *Ctx, op string) {
 		h := strings.TrimPrefix(goodID, "tar:")
 		if _, e := os.Stat(filepath.Join(base, "wh", h[0:3], h[3:6], h)); e != nil && len(h) > 6 {
 			c.PropFail("cli-bystander", fmt.Sprintf("rio %q deleted a ware from a warehouse it was only reading from", args), op)
+		}
+	}
+	if goodID != "" {
+		h := strings.TrimPrefix(goodID, "tar:")
+		if _, e := os.Stat(filepath.Join(base, "tgtreal", "wh4", h[0:3], h[3:6], h)); e != nil && len(h) > 6 {
+			c.PropFail("cli-bystander", fmt.Sprintf("rio %q deleted the warehouse it was reading from (it lies inside the unpack target, which is emptied first; one of the two was named through a symlink)", args), op)
 		}
 	}
 	if sa, _ := Snapshot(filepath.Join(base, "src")); len(args) > 0 && sa.Digest(true) != srcBefore.Digest(true) {
@@ -818,7 +835,9 @@ func cliEngine(c *Ctx) {
 		vecs = append(vecs, []string{"unpack", "@GOODID@", "@W@/tlink", "--source=ca+file://@W@/wh", "--placer=" + pl},
 			[]string{"unpack", "@GOODID@", "@W@", "--source=ca+file://@W@/wh", "--placer=" + pl},
 			[]string{"unpack", "@GOODID@", "@W@/wh/..", "--source=ca+file://@W@/wh", "--placer=" + pl},
-			[]string{"@CD:wh@", "unpack", "@GOODID@", ".", "--source=ca+file://.", "--placer=" + pl})
+			[]string{"@CD:wh@", "unpack", "@GOODID@", ".", "--source=ca+file://.", "--placer=" + pl},
+			[]string{"unpack", "@GOODID@", "@W@/tgtreal", "--source=ca+file://@W@/viewlink", "--placer=" + pl},
+			[]string{"unpack", "@GOODID@", "@WALIAS@/tgtreal", "--source=ca+file://@W@/tgtreal/wh4", "--placer=" + pl})
 	}
 	for _, fm := range []string{"tar", "zip"} {
 		vecs = append(vecs, []string{"@CD:src@", "pack", fm, ".", "--target=ca+file:../wh"}, []string{"@CD:src@", "pack", fm, ".", "--target=file:../wh/mono.bin"},
